@@ -380,7 +380,7 @@ or >=1 read issued after the first error; distinct by hash of the serialised cas
     fn strategy(_tier: Tier) -> BoxedStrategy<Case> {
         (
             base_strategy(),
-            0u8..4,
+            0u8..12,
             seg(),
             fault_strategy(),
             gen::read_plan_with_text_reader(),
